@@ -5,6 +5,7 @@ import (
 	"context"
 	"encoding/json"
 	"errors"
+	"fmt"
 
 	jsonrpc "github.com/filecoin-project/go-jsonrpc"
 
@@ -95,6 +96,15 @@ func (e *BrokenCodecErr) FromJSONRPCError(j jsonrpc.JSONRPCError) error {
 	return nil
 }
 
+// wrapErr: an unregistered error type that wraps a registered one (Unwrap).
+type wrapErr struct {
+	msg   string
+	inner error
+}
+
+func (e *wrapErr) Error() string { return "wrap:" + e.msg }
+func (e *wrapErr) Unwrap() error { return e.inner }
+
 type H struct {
 	kind int
 	msg  string
@@ -118,6 +128,11 @@ func (h *H) mk() error {
 		return QuotaErr{N: h.n}
 	case 6:
 		return &BrokenCodecErr{Msg: h.msg}
+	case 7:
+		// not registered itself; the error it wraps is
+		return &wrapErr{msg: h.msg, inner: &PtrErr{Msg: "inner", N: h.n}}
+	case 8:
+		return fmt.Errorf("annotated %s: %w", h.msg, &CodecErr{Detail: "inner", K: h.n})
 	}
 	return nil
 }
@@ -162,7 +177,7 @@ func table(which int, altCodes bool) *jsonrpc.Errors {
 
 // HarnessErrors: handler outcome x error type x registration tables x method shape x transport.
 func HarnessErrors() {
-	h := &H{kind: verif.Choice("kind", 7), msg: verif.String("msg", 3), n: verif.Int("n")}
+	h := &H{kind: verif.Choice("kind", 9), msg: verif.String("msg", 3), n: verif.Int("n")}
 	verif.Assume(h.n >= -(1<<53) && h.n <= 1<<53)
 	srvTab := verif.Choice("server_table", 3)
 	cliTab := verif.Choice("client_table", 3)
@@ -261,6 +276,12 @@ func HarnessErrors() {
 		} else {
 			verif.Assert(got != nil, "conversion-never-nil")
 		}
+	case 7:
+		// the dynamic type of the returned error is not registered (only something it wraps is):
+		// generic error, the handler's message, generic code
+		generic("wrap:"+h.msg, 1)
+	case 8:
+		generic("annotated "+h.msg+": codec:inner", 1)
 	case 6:
 		// the server-side conversion fails: the error must still arrive, as the generic error
 		generic("broken:"+h.msg, 1)
